@@ -31,6 +31,8 @@ type RecStore struct {
 	Delay time.Duration
 	// OnSave is called after the inner save succeeded (e.g. to copy the data file aside)
 	OnSave func(n int)
+	// Fail, if set, is asked before every save (n = 1, 2, ...): a non-nil error is returned by Save instead of saving
+	Fail func(n int) error
 
 	mu    sync.Mutex
 	mem   []byte
@@ -79,7 +81,13 @@ func (r *RecStore) Save(d *store.PersistedData) error {
 		time.Sleep(r.Delay)
 	}
 	var err error
-	if r.Inner != nil {
+	if r.Fail != nil {
+		r.mu.Lock()
+		n := len(r.saves) + 1
+		r.mu.Unlock()
+		err = r.Fail(n)
+	}
+	if err == nil && r.Inner != nil {
 		err = r.Inner.Save(d)
 	}
 	r.mu.Lock()
